@@ -48,11 +48,24 @@ func verifC18(steps int, mode string) {
 	}
 	var wants []want
 	f := &sqlcheck.File{}
-	// Region of the listed finding C18-order-insensitive-spans: some table or
-	// column is dropped and later created again within the file.
-	region := false
-	var tabDropped [2]bool
-	var colDropped [2]bool
+	// The listed finding C18-order-insensitive-spans is identified exactly: the
+	// span of an object is computed over the whole file (create resets it to
+	// "added", drop ors "dropped" in), so the verdict for a drop statement is
+	// "report unless the final span is added|dropped". A drop statement belongs
+	// to the finding iff that order-insensitive verdict differs from the
+	// position-aware one; all other statements are checked exactly.
+	const spanAdded, spanDropped = 1, 2
+	var tabSpan [2]int
+	var colSpan [2]int
+	type dropStmt struct {
+		code    string
+		pos     int
+		spec    bool // position-aware verdict: reported?
+		table   int  // table index for DS102, -1 otherwise
+		col     int  // column index for DS103, -1 otherwise
+		virtual bool
+	}
+	var drops []dropStmt
 	nsteps := verifChoice("steps", steps) + 1
 	for s := 0; s < nsteps; s++ {
 		pos := 10*s + 1
@@ -63,8 +76,9 @@ func verifC18(steps int, mode string) {
 		case op == 0 || op == 1: // CREATE TABLE t<op> (c0, c1)
 			i := op
 			verifAssume(!tabs[i].exists)
-			if tabDropped[i] {
-				region = true
+			tabSpan[i] = spanAdded
+			if i == 0 {
+				colSpan[0], colSpan[1] = spanAdded, spanAdded
 			}
 			tabs[i] = verifTab{exists: true, created: true, cols: [2]bool{true, true}, colNew: [2]bool{true, true}}
 			ch = &schema.AddTable{T: mkTable(i, tabs[i])}
@@ -75,14 +89,13 @@ func verifC18(steps int, mode string) {
 			if !tabs[i].created {
 				wants = append(wants, want{"DS102", pos})
 			}
+			drops = append(drops, dropStmt{code: "DS102", pos: pos, spec: !tabs[i].created, table: i, col: -1})
+			tabSpan[i] |= spanDropped
 			tabs[i] = verifTab{}
-			tabDropped[i] = true
 		case op == 4 || op == 5: // ALTER TABLE t0 ADD COLUMN c<op-4>
 			j := op - 4
 			verifAssume(tabs[0].exists && !tabs[0].cols[j])
-			if colDropped[j] {
-				region = true
-			}
+			colSpan[j] = spanAdded
 			tabs[0].cols[j], tabs[0].colNew[j] = true, true
 			t := mkTable(0, tabs[0])
 			c, _ := t.Column(fmt.Sprintf("c%d", j))
@@ -100,8 +113,9 @@ func verifC18(steps int, mode string) {
 			if !tabs[0].colNew[j] && !virtual {
 				wants = append(wants, want{"DS103", pos})
 			}
+			drops = append(drops, dropStmt{code: "DS103", pos: pos, spec: !tabs[0].colNew[j] && !virtual, table: -1, col: j, virtual: virtual})
+			colSpan[j] |= spanDropped
 			tabs[0].cols[j], tabs[0].colNew[j] = false, false
-			colDropped[j] = true
 		default: // ALTER TABLE t0 ADD INDEX (purely additive)
 			verifAssume(tabs[0].exists && tabs[0].cols[0])
 			t := mkTable(0, tabs[0])
@@ -128,16 +142,37 @@ func verifC18(steps int, mode string) {
 	} else {
 		verifReach("additive")
 	}
+	// statements whose order-insensitive verdict differs from the position-aware one
+	excused := map[int]bool{}
+	for _, d := range drops {
+		model := false
+		if d.table >= 0 {
+			model = tabSpan[d.table] != spanAdded|spanDropped
+		} else {
+			model = colSpan[d.col] != spanAdded|spanDropped && !d.virtual
+		}
+		if model != d.spec {
+			excused[d.pos] = true
+		}
+	}
 	switch mode {
 	case "main":
-		if region && verifKnown("C18-order-insensitive-spans") {
-			verifReach("known-region")
-			return
+		if len(excused) > 0 {
+			if verifKnown("C18-order-insensitive-spans") {
+				verifReach("known-region")
+			} else {
+				excused = map[int]bool{}
+			}
 		}
 	case "witness":
-		verifAssume(region)
+		verifAssume(len(excused) > 0)
+		excused = map[int]bool{}
 	}
+	anyExcused := len(excused) > 0
 	for _, w := range wants {
+		if excused[w.pos] {
+			continue
+		}
 		found := false
 		for _, g := range got {
 			if g == w {
@@ -147,6 +182,9 @@ func verifC18(steps int, mode string) {
 		verifAssert(found, "a destructive statement is reported at its position: "+w.code)
 	}
 	for _, g := range got {
+		if excused[g.pos] {
+			continue
+		}
 		found := false
 		for _, w := range wants {
 			if g == w {
@@ -155,7 +193,10 @@ func verifC18(steps int, mode string) {
 		}
 		verifAssert(found, "a statement that drops nothing pre-existing is not reported: "+g.code)
 	}
-	verifAssert((err != nil) == (len(wants) > 0), "the analyzer fails exactly when the file is destructive")
+	verifAssert((err != nil) == (len(got) > 0), "the analyzer fails exactly when it reports a diagnostic")
+	if !anyExcused {
+		verifAssert((err != nil) == (len(wants) > 0), "the analyzer fails exactly when the file is destructive")
+	}
 }
 
 func VerifHarness_C18_quick()    { verifC18(3, "main") }
